@@ -172,6 +172,7 @@ def process_case(draw, kinds=KINDS, models=("NRTL", "UNIQUAC"), removal=(1e-6, 0
             case["area"] = int(round(case["area"]))
         if case["amount"] >= 1:
             case["amount"] = int(round(case["amount"]))
+        case["int_dt"] = True  # and a whole number of hours per step (a Python int) when the step is at least an hour
     if kind.startswith("nonideal"):
         case["curves"] = draw(curve_set())
         case["orders"] = {"n1": draw(st.integers(0, 2)), "m1": draw(st.integers(0, 1)), "n2": draw(st.integers(0, 2)), "m2": draw(st.integers(0, 1))}
@@ -263,6 +264,8 @@ def _step_length(case, s):
     dt = case["removal"] * case["amount"] / (case["area"] * tot)
     if not (math.isfinite(dt) and dt > 0):
         raise Discard("step length not representable")
+    if case.get("int_dt") and 1 <= dt < 1e6:
+        dt = int(round(dt))
     return dt
 
 
